@@ -1,5 +1,5 @@
 """Property -> rules table.  Rules are functions (ctx, repo)."""
-from .rules import ndim, iface, wrappers, rng, mech, errmodels, popmodels, switch, copies, cursors, reduced, layout, noise, filters, caches, problems, dosing, sbml, predictive, inference, plots, loglik, purity, lint, forward
+from .rules import ndim, iface, wrappers, rng, mech, errmodels, popmodels, switch, copies, cursors, reduced, layout, noise, filters, caches, problems, dosing, sbml, predictive, inference, plots, loglik, purity, lint, forward, contracts
 
 PROPS = {}
 
@@ -80,7 +80,7 @@ prop('C01',
 prop('C02',
      [iface.r02_1, iface.r02_7, iface.r02_6, wrappers.r02_2, forward.r02_8, CUR_HIER,
       layout.r02_3, layout.r02_4, layout.r07_1, popmodels.r05_2,
-      layout.r05_3, layout.r05_6, layout.r02_9],
+      layout.r05_3, layout.r05_6, layout.r02_9, contracts.r05_7],
      undecided=['numerical equality of the score with the hand-assembled sum',
                 'covariate values reaching the right individual at run time'],
      assumptions=COMMON_ASSUME,
@@ -137,7 +137,7 @@ prop('C03',
                  'sensitivities is that score.')
 
 prop('C05',
-     [ndim.r05_1, popmodels.r05_2, popmodels.r05_5, cursors.r05_4, layout.r05_3, layout.r05_6,
+     [ndim.r05_1, popmodels.r05_2, popmodels.r05_5, cursors.r05_4, layout.r05_3, layout.r05_6, contracts.r05_7,
       reduced.r08_2],
      undecided=['numerical values at boundary points', '-inf vs nan'],
      assumptions=TERM_ASSUME,
@@ -151,7 +151,7 @@ prop('C05',
                  'chain rule through the class\'s own transform.')
 
 prop('C06',
-     [errmodels.r06_1, popmodels.r06_2, popmodels.r06_3, rng.r16_2,
+     [errmodels.r06_1, popmodels.r06_2, popmodels.r06_3, contracts.r06_4, contracts.r05_7, rng.r16_2,
       reduced.r08_1, CUR_HIER],
      undecided=['distribution of numpy / scipy draws',
                 'quantiles and independence of actual samples'],
@@ -523,7 +523,12 @@ ENTRY = {
     'C16': ['ALL.sample', 'ALL.sample_initial_parameters'],
     'C17': ['ALL.n_parameters', 'ALL.get_parameter_names', 'ALL.get_id',
             'ALL.n_hierarchical_parameters', 'ALL.evaluateS1',
-            'ALL.parameters'],
+            'ALL.parameters',
+            # the counts must agree after every configuration change
+            'ALL.set_population_parameters', 'ALL.set_n_ids',
+            'ALL.set_dim_names', 'ALL.set_parameter_names',
+            'ALL.fix_parameters', 'ALL.set_outputs',
+            'ALL.set_administration', 'ALL.set_covariate_names'],
     'C18': ['ALL.sample_initial_parameters', 'SamplingController.run',
             'SamplingController._format_chains',
             'OptimisationController.run', 'PosteriorPredictiveModel.*',
@@ -531,7 +536,8 @@ ENTRY = {
     'C19': ['ALL.__call__', 'ALL.evaluateS1', 'ALL.compute_log_likelihood',
             'ALL.compute_pointwise_ll', 'ALL.compute_sensitivities',
             'ALL.compute_individual_parameters', 'ALL.sample',
-            'ALL.simulate', 'ALL.get_mean_and_std'],
+            'ALL.simulate', 'ALL.get_mean_and_std',
+            'ProblemModellingController.get_log_posterior'],
     'C20': ['PLOTS.add_data', 'PLOTS.add_prediction',
             'PLOTS.add_simulation'],
 }
